@@ -72,8 +72,7 @@ void AttributedItem::dumpString(bool prependFieldSeparator, const string& str, o
     *output << FIELD_SEPARATOR;
   }
   string::size_type pos = str.find_first_of(TEXT_SEPARATOR);
-  if (str.find_first_of(FIELD_SEPARATOR) == string::npos
-  && (pos == string::npos || (pos > 0 && pos < str.length() - 1))) {
+  if (str.find_first_of(FIELD_SEPARATOR) == string::npos && pos == string::npos) {
     *output << str;
   } else if (pos == string::npos) {
     *output << TEXT_SEPARATOR << str << TEXT_SEPARATOR;
